@@ -206,7 +206,7 @@ def parse_vspec(path):
                 if not m:
                     raise RsxError(f"{path}:{i+1}: bad @hint")
                 b, i = block(i + 1)
-                cur_fn.hints.append((m.group(1), m.group(2).replace("\\n", "\n"), "\n".join(b)))
+                cur_fn.hints.append((m.group(1), m.group(2).replace("¶", "\n"), "\n".join(b)))
                 continue
             elif d == "@retype":
                 m = re.match(r"`(.*)`\s*=>\s*`(.*)`\s*$", rest)
